@@ -197,6 +197,14 @@ func (c *updater) setAuthExternal(config ConfigValueGetter, auth *hatypes.AuthEx
 	if err != nil {
 		// clean up and try again
 		used := c.haproxy.Backends().BuildUsedAuthBackends()
+		for _, host := range c.haproxy.Hosts().Items() {
+			for _, path := range host.Paths {
+				// frontend placed authentication uses the auth proxy as well
+				if path.AuthExt != nil && path.AuthExt.AuthBackendName != "" {
+					used[path.AuthExt.AuthBackendName] = true
+				}
+			}
+		}
 		c.haproxy.Frontend().RemoveAuthBackendExcept(used)
 		authBackendName, err = c.haproxy.Frontend().AcquireAuthBackendName(backend.BackendID())
 		if err != nil {
